@@ -23,7 +23,7 @@ def shape_class(tag):
 def run(ctx):
     quick = ctx.tier == "quick"
     ctx.trusted += ["coq/Ref/RefSem.v (the reading) and coq/Ref/Unambig.v (what counts as two continuations) are definitions; first symbols are those of patterns: an else clause and the skipping of a wait are what happens when nothing else applies, not alternatives",
-                    "harness/gen.py printer and harness/refsem.py (tree -> Lang term)", "extraction (ExtrOcamlBasic only) of Ref.Unambig.unambig_run; the boolean equality on configurations that names table entries (Ref/Lang.v cfg_eqb)"]
+                    "harness/gen.py printer and harness/refsem.py (tree -> Lang term)", "extraction (ExtrOcamlBasic only) of Ref.Unambig.unambig_run (the boolean equality that names table entries is proved to imply equality: Ref/LangEq.v)"]
     ctx.assumptions += ["program quantifier is sampled: near-ambiguous statement pairs and clause sets over a three-letter alphabet + the C01 population; symbols 0..255 (end-of-input excluded)",
                         "the converse (rejected => ambiguous) is not demanded by the property and not checked"]
     err = refsem.ensure_refk()
